@@ -22,6 +22,7 @@ mod codec;
 mod c13;
 mod c14;
 mod c15;
+mod c16;
 mod c18;
 mod c19;
 
@@ -105,6 +106,7 @@ fn main() {
         "C13" => (c13::run, c13::replay),
         "C14" => (c14::run, c14::replay),
         "C15" => (c15::run, c15::replay),
+        "C16" => (c16::run, c16::replay),
         "C18" => (c18::run, c18::replay),
         "C19" => (c19::run, c19::replay),
         _ => usage(),
